@@ -904,9 +904,14 @@ impl Sim {
         }
         self.stats.bump("fault.disk_error_state_checked");
         let shadow = self.committed(r).clone();
+        // Each oracle runs whatever the others found: a check reports the findings of its own
+        // property only.
         self.check_lookups(r, &format!("{ctx} (after injected disk error)"), &shadow);
-        if !self.found.is_empty() {
-            return;
+        // C19: what the replica answers to hello notifications still follows its committed graph.
+        for p in 0..self.reps.len() {
+            if p != r && !self.crashed[p] && self.has_graph(p) {
+                self.step_hello(r, p);
+            }
         }
         if before.is_some() {
             let after = self.snapshot(r);
